@@ -492,15 +492,25 @@ def discharge(prog, S, body, ref, effs):
             if g0 is None or not body.edge_dominates((g0[0], g0[2]), rb):
                 continue
             c0 = {c.get('def') for c in origins(body, [body.blocks[g0[0]].term.discr.place[0]]).consts if c.get('def')}
+            NEUTRAL = {'as_bytes', 'as_str', 'deref', 'as_ref', 'borrow', 'into', 'from', 'try_from', 'try_into', 'clone', 'to_owned', 'as_slice'}
+
+            def measure(b_, sw_blk):
+                # how the compared quantity is computed from the name: the methods applied (str::len == as_bytes().len(); chars().count() is another measure)
+                o_ = origins(b_, [b_.blocks[sw_blk].term.discr.place[0]])
+                return frozenset((b_.blocks[c].term.cmethod or '?') for c in o_.calls) - NEUTRAL
+            m0 = measure(body, g0[0])
             # constants tested by the callee's guard of that refusal
             t = body.blocks[rb].term
             cs = set()
+            same_measure = True
             for cb in S.callee_bodies(body, t)[0]:
                 for (rbb, rii, rn, rvv) in S.refusal_sites(cb):
                     if rvv == v and rn.startswith('refusal:'):
                         g = guard_of(prog, cb, rbb)
                         if g is not None and cb.blocks[g[0]].term.discr.place is not None:
                             cs |= {c.get('def') for c in origins(cb, [cb.blocks[g[0]].term.discr.place[0]]).consts if c.get('def')}
-            if c0 & cs:
+                            if measure(cb, g[0]) != m0:
+                                same_measure = False
+            if c0 & cs and same_measure:
                 return '%s already refused before any effect on the same limit %s (%s)' % (v, sorted(c0 & cs), body.loc(rb0, ri0))
     return None
